@@ -1,10 +1,10 @@
 CONSTANTS
-  LeafTags = {"T", "S", "U"}
+  LeafTags = {"T", "N", "S", "U"}
   StepTags = {"S", "U"}
   StepItems = {0, 1}
-  MaxSelDepth = 3
-  ActNames = {"Remove","Empty","SetVr","Set","SetStr","SetIfMissing","Replace","PushStr","PushU16","PushF32","Truncate"}
-  Inits = {"empty", "seeded"}
+  MaxSelDepth = 2
+  ActNames = {"Remove","Empty","SetVr","Set","SetStr","SetIfMissing","Replace","PushStr","PushI32","PushU16","PushF64","Truncate"}
+  Inits = {"empty"}
   MaxSteps = 3
 SPECIFICATION MSpec
 INVARIANT TypeOK
